@@ -38,21 +38,65 @@ def _row_loop(fn):
     return loops[-1] if loops else None
 
 
-def _canon(loop, expr):
-    """text of expr with single-assignment locals of the loop inlined and the loop's (index, row) variables named
-    IDX / ROW, so that two implementations can be compared whatever their locals are called"""
-    import copy
-    e = _inline(loop, expr)
-    names = {}
-    if isinstance(loop.target, ast.Tuple) and len(loop.target.elts) == 2:
-        for el, nm in zip(loop.target.elts, ("IDX", "ROW")):
-            if isinstance(el, ast.Name):
-                names[el.id] = nm
-    e = copy.deepcopy(e)
-    for n in ast.walk(e):
-        if isinstance(n, ast.Name) and n.id in names:
-            n.id = names[n.id]
-    return " ".join(ast.unparse(e).split())
+class RowForm:
+    """Expressions of a per-row function in a form that does not depend on how the loop is spelled or what the locals
+    are called: locals are replaced by the expressions that reach them (semantic.Env), the row index / row / seed of
+    the row loop are called IDX / ROW / SEEDS[IDX], and the result is brought into semantic form."""
+
+    def __init__(self, fn):
+        import copy
+        from .common import row_loop_info
+        from .semantic import Env
+        self.fn = fn
+        self.info = row_loop_info(fn)
+        self.loop = self.info.loop if self.info is not None and self.info.loop is not None else _row_loop(fn)
+        self.env = Env(fn.node.body)
+        self._copy = copy
+
+    def stmt_of(self, node):
+        n = node
+        while n is not None and id(n) not in self.env.env_at:
+            n = parent(n)
+        return n
+
+    def _rename(self, e):
+        info = self.info
+        rows = info.rows if info is not None else None
+        seeds = "seeds"
+
+        class R(ast.NodeTransformer):
+            def visit_Subscript(self, node):
+                self.generic_visit(node)
+                if info is not None and isinstance(node.value, ast.Name) and isinstance(node.slice, ast.Name) and \
+                        node.slice.id == "IDX":
+                    if node.value.id == rows:
+                        return ast.Name(id="ROW", ctx=ast.Load())
+                return node
+
+            def visit_Name(self, node):
+                if info is None:
+                    return node
+                if node.id == info.idx:
+                    return ast.Name(id="IDX", ctx=node.ctx)
+                if node.id == info.row:
+                    return ast.Name(id="ROW", ctx=node.ctx)
+                if node.id == info.seed:
+                    return ast.parse("%s[IDX]" % seeds, mode="eval").body
+                return node
+        return R().visit(e)
+
+    def expr(self, node, at=None):
+        """the renamed, definition-expanded tree of expression `node` (as evaluated where it stands)"""
+        st = self.stmt_of(at if at is not None else node)
+        e = self.env.at(st, node) if st is not None else self._copy.deepcopy(node)
+        e = self._rename(e)
+        ast.fix_missing_locations(e)
+        return e
+
+    def text(self, node, at=None, index=False):
+        from .semantic import as_index, sem_text
+        e = self.expr(node, at)
+        return as_index(e) if index else sem_text(e)
 
 
 def _selection_arg(prog, cls, loop):
@@ -72,20 +116,42 @@ def _selection_arg(prog, cls, loop):
     return None
 
 
+def _batch_element(batch):
+    """(RowForm, element expression) of _calculate_distances_of_batch: what the cache holds for row IDX"""
+    rf = RowForm(batch)
+    info = rf.info
+    rets = [s for s in ast.walk(batch.node) if isinstance(s, ast.Return) and s.value is not None]
+    if info is None or info.loop is None or info.out is None or not info.once or len(rets) != 1 or \
+            ast.unparse(rets[0].value) != info.out:
+        # a comprehension over the rows?
+        if len(rets) == 1:
+            v = rf.env.at(rets[0], rets[0].value)
+            if isinstance(v, ast.ListComp) and len(v.generators) == 1 and not v.generators[0].ifs and \
+                    ast.unparse(v.generators[0].iter) == batch.params[1] and \
+                    isinstance(v.generators[0].target, ast.Name):
+                from .semantic import sem_text
+                row = v.generators[0].target.id
+
+                class R(ast.NodeTransformer):
+                    def visit_Name(self, node):
+                        return ast.Name(id="ROW", ctx=node.ctx) if node.id == row else node
+                return rf, sem_text(R().visit(v.elt))
+        return rf, None
+    for n in ast.walk(info.loop):
+        if info.mode == "index" and isinstance(n, ast.Assign) and isinstance(n.targets[0], ast.Subscript) and \
+                ast.unparse(n.targets[0].value) == info.out:
+            return rf, rf.text(n.value, at=n)
+        if info.mode == "append" and isinstance(n, ast.Call) and isinstance(n.func, ast.Attribute) and \
+                n.func.attr == "append" and ast.unparse(n.func.value) == info.out:
+            return rf, rf.text(n.args[0], at=n)
+    return rf, None
+
+
 def check_selection(ctx):
     prog = ctx.prog
     batch = prog.method("_NeighborsSimulator", "_calculate_distances_of_batch")
-    bloop = _row_loop(batch)
-    elem = None
-    rets = [s for s in batch.node.body if isinstance(s, ast.Return)]
-    out_name = rets[-1].value.id if rets and isinstance(rets[-1].value, ast.Name) else None
-    if bloop is not None and out_name is not None:
-        for s in ast.walk(bloop):
-            if isinstance(s, ast.Assign) and isinstance(s.targets[0], ast.Subscript) and \
-                    ast.unparse(s.targets[0].value) == out_name and \
-                    _canon(bloop, s.targets[0].slice) == "IDX":
-                elem = s.value
-    if elem is None:
+    _, elem_x = _batch_element(batch)
+    if elem_x is None:
         # not written row by row: is a distance computed from the whole batch at once?
         whole = [c for c in ast.walk(batch.node) if isinstance(c, ast.Call) and
                  ast.unparse(c.func).split(".")[-1] in ("cdist", "pdist", "pairwise_distances") and
@@ -101,21 +167,21 @@ def check_selection(ctx):
             ctx.undecided("R15.1", "element expression of _calculate_distances_of_batch", batch.node, batch,
                           "no `<returned list>[index] = ...` found", construct="def _calculate_distances_of_batch")
         return
-    elem_x = _canon(bloop, elem)
     n = 0
     for lib, sim in (("_Radius", "_RadiusSimulator"), ("_KNearest", "_KNearestSimulator")):
         fl, fs = prog.method(lib, "_predict_contexts"), prog.method(sim, "_predict_contexts")
         ctx.saw_fn(fl)
         ctx.saw_fn(fs)
-        ll, ls = _row_loop(fl), _row_loop(fs)
+        rl, rs = RowForm(fl), RowForm(fs)
+        ll, ls = rl.loop, rs.loop
         el = _selection_arg(prog, lib, ll) if ll is not None else None
         es = _selection_arg(prog, sim, ls) if ls is not None else None
         if el is None or es is None:
             ctx.undecided("R15.1", "%s / %s: no neighbour selection handed to _get_nhood_predictions" % (lib, sim),
                           fs.node, fs, construct="def %s._predict_contexts" % sim)
             continue
-        sl, ss = _canon(ll, el), _canon(ls, es)
-        cache = "self.distances[%s + IDX]" % fs.params[4] if len(fs.params) > 4 else "self.distances[start_index + IDX]"
+        sl, ss = rl.text(el, index=True), rs.text(es, index=True)
+        cache = _cache_text(fs)
         ss_sub = ss.replace(cache, elem_x)
         n += 1
         ctx.check(cache in ss, "R15.1",
@@ -125,6 +191,29 @@ def check_selection(ctx):
                   "library: %s ; simulator (cache expanded): %s" % (sl, ss_sub),
                   construct="indices of %s vs %s" % (sim, lib))
     ctx.floor("R15.1", "selection pairs", n, 2)
+
+
+_ROW_FORMS = {}
+_GUARD_KEYS = {}
+_BATCH = {}
+
+
+def _row_form(fn):
+    k = id(fn.node)
+    if k not in _ROW_FORMS or _ROW_FORMS[k][0] is not fn.node:
+        _ROW_FORMS[k] = (fn.node, RowForm(fn))
+    return _ROW_FORMS[k][1]
+
+
+def _batch_elem_text(prog):
+    k = id(prog)
+    if k not in _BATCH or _BATCH[k][0] is not prog:
+        _BATCH[k] = (prog, _batch_element(prog.method("_NeighborsSimulator", "_calculate_distances_of_batch"))[1])
+    return _BATCH[k][1]
+
+
+def _cache_text(fs):
+    return "self.distances[%s + IDX]" % fs.params[4] if len(fs.params) > 4 else "self.distances[start_index + IDX]"
 
 
 def loop_vars(loop):
@@ -196,11 +285,33 @@ def check_drivers(ctx):
             n += 1
             mab = c.func.value.id
             arg = ast.unparse(c.args[0])
-            # the enclosing isinstance branch and the predict that follows
+            # the predict calls of the same bandit in the same turn of the bandit loop that can follow this call
+            # (not in the other branch of an if/else both lie under)
             br = parent(c)
-            while br is not None and not (isinstance(br, ast.If) and ("isinstance(%s" % mab) in ast.unparse(br.test)):
+            while br is not None and not (isinstance(br, ast.For) and ast.unparse(br.iter) == "self.bandits"):
                 br = parent(br)
-            preds = [p for p in _bandit_calls(fn, "predict") if br is not None and any(x is p for x in ast.walk(br))]
+
+            def chain(n):
+                out = []
+                p, ch = parent(n), n
+                while p is not None and p is not br:
+                    if isinstance(p, ast.If):
+                        side = "body" if any(ch is x or any(ch is y for y in ast.walk(x)) for x in p.body) else "else"
+                        if not any(ch is y for y in ast.walk(p.test)):
+                            out.append((id(p), side))
+                    p, ch = parent(p), p
+                return dict(out)
+            mine = chain(c)
+            preds = []
+            for p in _bandit_calls(fn, "predict"):
+                if br is None or not any(x is p for x in ast.walk(br)) or not p.args:
+                    continue
+                theirs = chain(p)
+                if any(k in mine and mine[k] != v for k, v in theirs.items()):
+                    continue
+                if (p.lineno, p.col_offset) < (c.lineno, c.col_offset):
+                    continue
+                preds.append(p)
             same = bool(preds) and all(ast.unparse(p.args[0]) == arg for p in preds)
             reassigned = False
             if br is not None:
@@ -284,10 +395,36 @@ def _row_events(F, c, label, sim):
             continue
         copies = [norm_stmt(ev.node) for ev in pc.children if ev.kind == "ext" and ev.a["name"] == "copy.deepcopy"]
         seq = []
+        rf = _row_form(pc.a["callee"])
+        cache, elem_x = None, None
+        if sim:
+            cache = _cache_text(pc.a["callee"])
+            elem_x = _batch_elem_text(F.prog)
+        gk = _GUARD_KEYS.setdefault((id(F.prog), pc.a["callee"].qualname, sim), {})
+
+        def guard_key(g):
+            t = gk.get(id(g.node))
+            if t is None:
+                t = guard_text(g.node)
+                if cache is not None and elem_x is not None:
+                    t = t.replace(cache, elem_x)
+                gk[id(g.node)] = t
+            pol = g.polarity
+            while t.startswith("not "):
+                t, pol = t[4:], not pol
+            return t, pol
+
+        def guard_text(node):
+            from .semantic import emptiness, sem_text
+            e = rf.expr(node)
+            em = emptiness(e)
+            if em is not None:
+                return "EMPTY(%s)" % em[0] if em[1] else "not EMPTY(%s)" % em[0]
+            return sem_text(e)
         for ev, a2 in walk(loop):
             if ev.kind == "draw":
                 user = ev.stack[-2][0] if len(ev.stack) >= 2 else ev.fn
-                branch = tuple((" ".join(ast.unparse(g.node).split()), g.polarity) for g in ev.guards
+                branch = tuple(guard_key(g) for g in ev.guards
                                if g.fn is pc.a["callee"] and g not in pc.guards
                                and not isinstance(parent(g.node), (ast.For, ast.comprehension)))
                 # which top-level call of the row body (lp.predict / lp.predict_expectations / ...) is drawing
@@ -374,11 +511,20 @@ def check_traces(ctx, F):
         fl, fs = prog.method(lib, "_predict_contexts"), prog.method(sim, "_predict_contexts")
 
         def seed_stmt(fn):
+            rf = RowForm(fn)
             for s in ast.walk(fn.node):
                 if isinstance(s, ast.Assign) and isinstance(s.value, ast.Call) and \
-                        ast.unparse(s.value.func) == "create_rng":
+                        ast.unparse(s.value.func) == "create_rng" and (s.value.args or s.value.keywords):
                     a = s.value.args[0] if s.value.args else s.value.keywords[0].value
-                    return ast.unparse(s.targets[0]), ast.unparse(a), s
+                    tgt = s.targets[0]
+                    ttxt = rf.text(tgt, at=s)
+                    if isinstance(tgt, ast.Attribute) and isinstance(tgt.value, ast.Name):
+                        # which object is re-seeded: the worker copy, whatever the local holding it is called
+                        e = expand_local(fn.node, tgt.value.id)
+                        if e is not None:
+                            from .semantic import sem_text
+                            ttxt = "<%s>.%s" % (sem_text(e), tgt.attr)
+                    return ttxt, rf.text(a, at=s), s
             return None, None, fn.node
         tl, al, _ = seed_stmt(fl)
         ts, as_, node = seed_stmt(fs)
